@@ -76,11 +76,13 @@ def run_spec(job):
         dec = H.Decider(timeout_ms=opts.get('timeout_ms', 20000), seed=_W['seed'], dump_dir=opts.get('dump_dir'), cross_check=opts.get('cross_check', 0))
         env = H.env_assumptions(sc)
         nice = H.nice_constraints(sc)
+        nsym = len(sc.sym)
         runner = opts.get('runner') or ST.run
         paths = list(runner(sc, req))
         res['explore_s'] = time.time() - t0
         res['pruning_checks'] = eng.nchecks - c0
-        rng = random.Random(_W['seed'] * 7919 + hash(res['spec']) % 100003)
+        import zlib
+        rng = random.Random(_W['seed'] * 7919 + zlib.crc32(res['spec'].encode()) % 100003)
         witness_budget = opts.get('witness_per_spec', 12)
         order = list(range(len(paths)))
         rng.shuffle(order)
@@ -94,6 +96,8 @@ def run_spec(job):
             res['paths'][p.kind] += 1
             if p.kind == 'oob':
                 continue
+            if len(sc.sym) != nsym:          # composed steps introduced new symbols: keep the realisability constraints complete
+                env, nice, nsym = H.env_assumptions(sc), H.nice_constraints(sc), len(sc.sym)
             step = req.get('step') or {'kind': 'execute', 'sender': sc.sym['req.sender'], 'funds': sc.funds, 'msg': req['msg']}
             # ---- obligations
             for pid in prop_ids:
@@ -188,6 +192,8 @@ def run_spec(job):
                                 v.update(reproduced=False, diffs=['replay failed: %r' % (e,)], scenario=None)
                             res['violations'].append(v)
             # ---- witness replay (model validation + reachability)
+            if len(sc.sym) != nsym:
+                env, nice, nsym = H.env_assumptions(sc), H.nice_constraints(sc), len(sc.sym)
             if pi in witness_idx:
                 r, m = dec.check(list(p.pc) + env + nice + H.no_tie_constraints(p.world), 'witness')
                 if r == 'unsat':
